@@ -26,6 +26,16 @@ def _name(case, mout):
 
 
 def _skesk4(case, mout):
-    return "inconsistent session keys detected" in str(case.get("impl", "")) and " enc=1 " in case["rp"][1] and " npw=2 " in case["rp"][1]
+    # identified by the circumstance the harness established from the packets (one password opens another recipient's
+    # SKESK v4 to a different plausible key) and by WHERE every failing secret failed (decryption refused), never by the
+    # wording of an error
+    imp = str(case.get("impl", ""))
+    if not imp.startswith("SKESK4-PASSWORD-OPENS-OTHER-PACKET: "):
+        return False
+    parts = imp[len("SKESK4-PASSWORD-OPENS-OTHER-PACKET: "):].split(" | ")
+    # (a secret that did get the payload and the signatures but not the file name is the other finding, builder-drops-file-name)
+    def refused_or_name_only(p):
+        return ": DECRYPT-REFUSED " in p or ("payload-equal=true" in p and "signatures-verify=true" in p)
+    return any(": DECRYPT-REFUSED " in p for p in parts) and all(refused_or_name_only(p) for p in parts) and " enc=1 " in case["rp"][1] and " npw=2 " in case["rp"][1]
 
 KNOWN = {"builder-drops-file-name": _name, "skesk4-other-password-plausible-key": _skesk4}
